@@ -1,1 +1,51 @@
-import RosedVerif.Spec.Layout
+/-
+C07 — Whitespace operations never lose, invent or reorder text.   (layer B: one token per cluster)
+For every token type: the sequence of non-whitespace tokens is preserved by collapse, align and
+justify, and by wrap up to the continuation hyphens (whose positions are given by `pieces`).
+Known findings outside the cluster-level domain (DESIGN.md section 8): D9 (text that is not
+WsStable), D4r (paragraph mode with visible separator affixes and an over-long neighbouring word).
+-/
+import RosedVerif.Spec.AlignLemmas
+import RosedVerif.Spec.WrapLemmas
+import RosedVerif.Model.JustifyLemmas
+namespace RosedVerif.Props
+open RosedVerif RosedVerif.Spec
+variable {α : Type} (tk : Toks α)
+
+/-- CollapseSpace: non-whitespace tokens unchanged and in order … -/
+theorem C07_collapse (hsp : tk.ws tk.sp = true) (l : List α) :
+    (collapse tk l).filter (fun c => !tk.ws c) = l.filter (fun c => !tk.ws c) := collapse_nonws tk hsp l
+/-- … single spaces are the only whitespace left, never two adjacent, and it is idempotent -/
+theorem C07_collapse_only_space (l : List α) : ∀ c ∈ collapse tk l, tk.ws c = true → c = tk.sp :=
+  collapse_only_sp' tk l
+theorem C07_collapse_no_double (l : List α) :
+    ∀ (i : Nat) (h : i + 1 < (collapse tk l).length),
+      ¬(tk.ws (collapse tk l)[i] = true ∧ tk.ws (collapse tk l)[i + 1] = true) := collapse_no_double tk l
+theorem C07_collapse_idempotent (l : List α) : collapse tk (collapse tk l) = collapse tk l := collapse_idem' tk l
+
+/-- Align (all three kinds) -/
+theorem C07_align (hsp : tk.ws tk.sp = true) (w : Int) (l : List α) :
+    (Spec.alignLeft tk w l).filter (fun c => !tk.ws c) = l.filter (fun c => !tk.ws c) ∧
+    (Spec.alignRight tk w l).filter (fun c => !tk.ws c) = l.filter (fun c => !tk.ws c) ∧
+    (Spec.alignCenter tk w l).filter (fun c => !tk.ws c) = l.filter (fun c => !tk.ws c) :=
+  ⟨alignLeft_nonws tk hsp w l, alignRight_nonws tk hsp w l, alignCenter_nonws tk hsp w l⟩
+
+/-- Wrap: the words of the text are exactly its non-whitespace tokens in order; the lines partition
+the units; a unit is a word or a piece of an over-long word, and removing the continuation hyphens
+(the last token of every non-final piece) gives back the word: nothing is lost, invented or reordered -/
+theorem C07_wrap_words (l : List α) : (words tk l).flatten = l.filter (fun c => !tk.ws c) := words_flatten tk l
+theorem C07_wrap_units {w : Nat} (hw : 2 ≤ w) (l : List α) (h : l ≠ []) :
+    ∃ groups : List (List (List α)), groups.flatten = units tk w l ∧
+      Spec.wrapLines tk w l = groups.map (joinSp tk) := by
+  obtain ⟨g, h1, _, h3, _⟩ := wrapLines_partition tk hw l h
+  exact ⟨g, h1, h3⟩
+theorem C07_wrap_unhyphen (w : Nat) (word : List α) (f : Nat) : unhyphen (pieces tk w f word) = word :=
+  pieces_unhyphen' tk w word f
+
+/-- Justify: the justified line is the words interleaved with runs of spaces — removing the spaces
+gives back the words -/
+theorem C07_justify [DecidableEq α] (cx : Ctx α) (ws : List (List α)) (extra : List Nat)
+    (h : ∀ w ∈ ws, cx.sp ∉ w) : (interleave cx ws extra).filter (fun a => a != cx.sp) = ws.flatten :=
+  interleave_words cx ws extra h
+
+end RosedVerif.Props
